@@ -613,6 +613,12 @@ class C05(Prop):
                     docs.append(mutate_doc(r, d0) if k < 0.6 else (d0 if k < 0.8 else g.doc(3, False, 0)))
             c.docs = docs
             base.append(c)
+        # a call that returns more than a thousand values, then ordinary calls (pooled buffers of unusual size)
+        for i in range(max(2, n // 300)):
+            big = ('a', [('n', float(k)) for k in range(r.choice([1100, 1500, 2100]))])
+            small = ('a', [('n', 1.0), ('n', 2.0)])
+            path = r.choice([b'$[*]', b'$..*', b'$[0:]', b'$[?(@ >= 0)]'])
+            base.append(Case('big%d' % i, path, [small, big, small, ('o', [(b'a', ('n', 1.0))]), small]))
         raws = []
         for c in base:
             ops = [dict(op='parse', slot=0, **op_cfg(c))]
@@ -748,18 +754,28 @@ class C06(Prop):
             cid = 'k%d' % i
             raws.append(RawCase(cid, json.dumps({'id': cid, 'mode': 'conc', 'ops': ops, 'threads': threads, 'rounds': r.randint(1, 3)}),
                                 meta={'threads': threads, 'paths': [unhx(o['path_hex']).decode('utf-8', 'replace') for o in ops if o['op'] == 'parse']}))
+        # cold starts: a brand-new process whose first library calls are concurrent (no warm-up)
+        for i in range(max(6, n // 8)):
+            picks = r.sample(CONC_CORPUS, r.randint(2, 5))
+            ops = [{'op': 'parse', 'path_hex': hx(p), 'filters': f, 'aggs': a, 'acc': False} for p, f, a in picks]
+            ops.append({'op': 'doc', 'doc': core.doc_go(('a', [('o', [(b'a', ('n', 1.0)), (b'b', ('s', b'x'))]), ('n', 3.0)]))})
+            threads = r.choice([2, 4, 8, 16])
+            cid = 'cold%d' % i
+            raws.append(RawCase(cid, json.dumps({'id': cid, 'mode': 'cold', 'ops': ops, 'threads': threads}),
+                                meta={'threads': threads, 'cold': True, 'paths': [p.decode() for p, _, _ in picks]}))
         env_runner = core.RUNNER_RACE
         os.environ['GORACE'] = 'halt_on_error=1'
         gos = core.run_go(raws, jobs=4, timeout_ms=120000, runner=env_runner)
         for raw, g_ in zip(raws, gos):
             res.evaluations += 1
-            if g_.get('CONC', '').startswith('ok:'):
+            if g_.get('CONC', '').startswith('ok:') or g_.get('COLD', '').startswith('ok:'):
                 res.nontrivial.add(raw.id)
                 res.dist['threads-%d' % raw.meta['threads']] += 1
                 if len(res.samples) < 4:
                     res.sample({'threads': raw.meta['threads'], 'paths': raw.meta['paths'], 'observed': g_['CONC']})
                 continue
-            what = 'data race or crash under the race detector' if g_.get('P') in ('crash', 'timeout') else 'concurrent result differs from sequential: %s' % g_.get('DIFF')
+            what = 'data race or crash under the race detector' if g_.get('P') in ('crash', 'timeout') or g_.get('COLD') == 'race' else \
+                'concurrent result differs from sequential: %s' % (g_.get('DIFF') or g_.get('COLD'))
             res.violation('concrete', 'conc|' + '|'.join(raw.meta['paths']), what,
                           {'scenario': json.loads(raw.text), 'paths': raw.meta['paths']}, observed=g_)
 
@@ -770,7 +786,7 @@ class C06(Prop):
         for k in range(5):
             g_ = core.run_go([RawCase(sc['id'], json.dumps(sc))], jobs=1, timeout_ms=120000, runner=core.RUNNER_RACE)[0]
             print('implementation:', g_)
-            if not g_.get('CONC', '').startswith('ok:'):
+            if not (g_.get('CONC', '').startswith('ok:') or g_.get('COLD', '').startswith('ok:')):
                 res.violation('concrete', 'replay', 'race / differing result reproduced', v['case'])
                 return
 
@@ -815,6 +831,14 @@ class C07(Prop):
                 steps = g.gen_path(d, 3, 0.0)
                 path = gens.render_path(steps)
             cases.append(Case('p%d' % i, path, docs, meta={'perm_idx': [0, 2, 3, 5, 6, 7, 8, 9], 'nkeys': len(d[1])}))
+            if i % 4 == 0:
+                # the same sub-container referenced from several parents (a document assembled in Go code)
+                sub = obj(1)
+                arr = ('a', [sub, g.scalar(), sub])
+                shared = ('o', [(b'p', sub), (b'q', ('o', [(b'r', sub), (b's', arr)])), (b't', arr)])
+                c2 = Case('al%d' % i, r.choice([b'$..*', b'$..a', b'$..[0]', b'$..[*]', b'$.*.*', b'$..[?(@)]', path]), [shared, shared], meta={'perm_idx': [0, 1], 'nkeys': 3})
+                c2.alias = True
+                cases.append(c2)
         go, mo = both_sides(cases)
         for c, g_, m in zip(cases, go, mo):
             res.evaluations += 1
@@ -1107,7 +1131,7 @@ class C09(Prop):
             fams.append((doc, kind, exprs))
         # families from the reference-value generator: comparisons that really hit
         for i in range(n // 3):
-            doc, es = gens.refs_family(g, r.random() < 0.15)
+            doc, es = gens.refs_family(g, r.random() < 0.4)
             e = r.choice(es)
             m = re.match(rb'(.+?) (==|!=|<=|>=|<|>) (.+)$', e)
             if m and b'&&' not in e and b'||' not in e:
@@ -1515,6 +1539,8 @@ class C14(Prop):
             fs = [(('ffun', r.choice(gens.FILTER_FUNCS)) if r.random() < 0.5 else ('agg', r.choice(gens.AGG_FUNCS))) for _ in range(nf)]
             f, a = gens.funcs_used(steps + fs)
             c = Case('f%d' % i, gens.render_path(steps + fs), [doc], f, a, r.random() < 0.15, meta={'fs': fs, 'nsteps': len(steps)})
+            if r.random() < 0.4:
+                c.docs = [doc, mutate_doc(r, doc, 0.5), ('a', [('n', 1.0)])]
             cases.append(c)
             if not any(s[0] in ('ffun', 'agg') for s in steps) and b'()' not in gens.render_path(steps):
                 pre_of[c.id] = len(pres)
@@ -1533,6 +1559,10 @@ class C14(Prop):
                 res.disagreements_checked += 1
                 res.violation('concrete', sig_of(c, 'calls-vs-model'), 'function calls / results of %r differ from the model' % (c.path,), c,
                               expected=pm, observed=pg)
+            for k in [k for k in g_ if k.startswith('STALE')]:
+                res.violation('concrete', sig_of(c, 'result-changed-later'),
+                              'values returned by (or handed to a function of) an earlier call changed after a later call: %r' % (c.path,), c,
+                              expected=g_.get('R' + k[5:]), observed=g_[k])
             calls = split_calls(g_.get('C0', ''))
             r0 = g_.get('R0', '')
             if cls_of(r0) == 'ff' and not any(call_fails(x) for x in calls):
@@ -1750,6 +1780,10 @@ class C16(Prop):
                     else:
                         c = Case(cid, b"$['zz'," + sp[1:-1] + b']', [('o', members + [(b'zz', ('n', 99.0))])]) if b'zz' != kb else Case(cid, b'$' + sp, [obj])
                         w = 'ok:[n(99,0),n(1,0)]' if b'zz' != kb else 'ok:[n(1,0)]'
+                # an earlier Parse whose filter literal has the same raw text (a shared unescape cache would confuse them)
+                raw = sp[1:-1] if not sp.startswith(b'.') else None
+                if raw is not None and raw[:1] in (b"'", b'"') and len(raw) >= 2:
+                    c.pre = b'$[?(@.x == ' + raw + b')]'
                 c.meta = {'key': key, 'pos': pos, 'escaped': any(ch in "'\"\\" or ord(ch) < 0x20 for ch in key) or (dot is not None and dot != kb)}
                 want[cid] = w
                 cases.append(c)
@@ -1815,6 +1849,17 @@ class C18(Prop):
                 c = Case('g%d_%d' % (i, j), t, [doc], f, a, meta={'nsteps': len(steps)})
                 grp.append(c)
                 cases.append(c)
+            groups.append(grp)
+        # an aggregate after a value-group step, spelled with and without the leading `$`
+        for i in range(n // 8):
+            inner = ('a', [('a', [('n', float(k)) for k in range(r.randint(1, 4))]) for _ in range(r.randint(1, 3))])
+            doc = ('o', [(b'a', inner), (b'b', ('n', 1.0))])
+            tail = r.choice([b'[*]', b'.*', b'[0:]', b'[0,1]', b'[?(@)]'])
+            fn = r.choice(gens.AGG_FUNCS)
+            grp = [Case('v%d_a' % i, b'$.a' + tail + b'.' + fn.encode() + b'()', [doc], [], [fn], meta={'nsteps': 3}),
+                   Case('v%d_b' % i, b'a' + tail + b'.' + fn.encode() + b'()', [doc], [], [fn], meta={'nsteps': 3}),
+                   Case('v%d_c' % i, b"['a']" + tail + b'.' + fn.encode() + b'()', [doc], [], [fn], meta={'nsteps': 3})]
+            cases += grp
             groups.append(grp)
         # raw bracket-name bodies in both quote styles (control characters, escapes, blanks, non-ASCII)
         atoms = [b'a', b'b', b'\t', b'\x01', b'\x1f', b'\\n', b'\\t', b'\\u0041', b'\\\\', b'\\/', b'\xc3\xa9', b' ', b'.', b'*',
